@@ -24,7 +24,7 @@ use crate::props::Prop;
 pub const PROP: Prop = Prop {
     id: "C09",
     level: "exploration",
-    rule: "macro invocations generated from the documented syntax: model trees of depth <= 5 over integers within i32 (and i64/u64-suffixed), floats (short decimal forms), strings, Rust character literals, #t #f #nil, (), identifier symbols, #\"...\" symbols, punctuation-only symbols (+ - * / < = > ! $ % & ^ ~ ? @ <= >= -> ... ++ .++ :!) at every position, keywords as #:name, :name and #:\"...\", proper lists, dotted lists whose tail is an atom, a list or a dotted list (flattening), vectors, and unquotes ,x / ,(expr) of several Rust types in element and dotted-tail position; every invocation is compiled (rustc) and compared at run time with lexpr::from_str of the equivalent text and with a model value built from plain constructors; non-trivial = the invocation contains a list, vector, punctuation symbol or unquote; distinct by the invocation's token text",
+    rule: "macro invocations generated from the documented syntax: model trees of depth <= 5 over integers within i32 (and i64/u64-suffixed), floats (short decimal forms with 1-5 significant digits and decimal exponents -12..17, spelled as Rust prints them with {:?} - exponent notation below 1e-4 and from 1e16 - and with explicit exponents 2.5e-3 / 2.5E-3), strings, Rust character literals, #t #f #nil, (), identifier symbols, #\"...\" symbols, punctuation-only symbols (+ - * / < = > ! $ % & ^ ~ ? @ <= >= -> ... ++ .++ :!) at every position, keywords as #:name, :name and #:\"...\", proper lists, dotted lists whose tail is an atom, a list or a dotted list (flattening), vectors, and unquotes ,x / ,(expr) of several Rust types in element and dotted-tail position; every invocation is compiled (rustc) and compared at run time with lexpr::from_str of the equivalent text and with a model value built from plain constructors; non-trivial = the invocation contains a list, vector, punctuation symbol or unquote; distinct by the invocation's token text",
     assumptions: &[
         "excluded by construction and counted: a '-' symbol directly followed by a literal and a ':' symbol directly followed by an identifier or literal (Rust tokenisation cannot tell them from a negative number / a keyword), names needing escapes inside #\"...\"",
         "floats are restricted to short decimal forms so that the default (fast-float) parser reads the text exactly",
@@ -39,7 +39,8 @@ pub const PROP: Prop = Prop {
 #[derive(Clone, Debug, Serialize, Deserialize, Hash, PartialEq)]
 pub enum M {
     Int(i64, u8),
-    Float(u64),
+    /// bits, spelling: 0 = `{:?}`, 1 = `{:e}` (always an exponent, signed when negative), 2 = the same with `E`
+    Float(u64, #[serde(default)] u8),
     Str(String),
     Char(u32),
     Bool(bool),
@@ -75,7 +76,9 @@ impl M {
                 };
                 format!("{}{}", i, sfx)
             }
-            M::Float(b) => format!("{:?}", f64::from_bits(*b)),
+            M::Float(b, 0) => format!("{:?}", f64::from_bits(*b)),
+            M::Float(b, 1) => format!("{:e}", f64::from_bits(*b)),
+            M::Float(b, _) => format!("{:E}", f64::from_bits(*b)),
             M::Str(s) => rust_str(s),
             M::Char(c) => format!("{:?}", char::from_u32(*c).unwrap()),
             M::Bool(true) => "#t".into(),
@@ -111,7 +114,7 @@ impl M {
     pub fn model(&self) -> MV {
         match self {
             M::Int(i, _) => MV::int(*i as i128),
-            M::Float(b) => MV::F(*b),
+            M::Float(b, _) => MV::F(*b),
             M::Str(s) => MV::Str(s.clone()),
             M::Char(c) => MV::Char(*c),
             M::Bool(b) => MV::Bool(*b),
@@ -155,7 +158,11 @@ impl M {
         match self {
             M::Int(_, 0) => push("m:int"),
             M::Int(..) => push("m:int-suffixed"),
-            M::Float(_) => push("m:float"),
+            M::Float(_, 0) => push("m:float"),
+            M::Float(..) => {
+                push("m:float");
+                push("m:float-exponent-form")
+            }
             M::Str(_) => push("m:string"),
             M::Char(_) => push("m:char"),
             M::Bool(_) | M::Nil | M::Null => push("m:hash-token"),
@@ -280,9 +287,13 @@ fn g_unquote() -> BS<M> {
 }
 
 fn g_atom_m() -> BS<M> {
-    let short_float = (1i64..100_000, -4i32..=4, any::<bool>()).prop_map(|(m, e, neg)| {
+    // short decimal forms, also far enough from 1 that `{:?}` switches to
+    // exponent notation (below 1e-4, from 1e16), and spelled with an explicit
+    // exponent (`2.5e-3`, `2.5E-3`): in Rust the sign of the exponent is part
+    // of the literal token
+    let short_float = (1i64..100_000, prop_oneof![3 => -4i32..=4, 2 => -12i32..=-5, 1 => 12i32..=17], any::<bool>(), prop_oneof![3 => Just(0u8), 1 => Just(1u8), 1 => Just(2u8)]).prop_map(|(m, e, neg, sp)| {
         let x: f64 = format!("{}{}e{}", if neg { "-" } else { "" }, m, e).parse().unwrap();
-        M::Float(x.to_bits())
+        M::Float(x.to_bits(), sp)
     });
     prop_oneof![
         4 => prop_oneof![(-1000i64..1000), (i32::MIN as i64..=i32::MAX as i64), Just(0i64), Just(i32::MAX as i64), Just(i32::MIN as i64 + 1)].prop_map(|i| M::Int(i, 0)),
@@ -310,7 +321,7 @@ fn sanitise(m: M, excluded: &mut u64) -> M {
         for x in xs {
             let x = sanitise(x, excluded);
             if let Some(M::Punct(p)) = out.last() {
-                let next_is_literal = matches!(x, M::Int(..) | M::Float(_) | M::Str(_) | M::Char(_));
+                let next_is_literal = matches!(x, M::Int(..) | M::Float(..) | M::Str(_) | M::Char(_));
                 let next_is_ident = matches!(x, M::Ident(_));
                 let joins = (p == "-" && next_is_literal) || (p == ":" && (next_is_ident || next_is_literal));
                 if joins {
@@ -662,7 +673,7 @@ fn run(ctx: &mut Ctx) {
         M::List(vec![M::Int(41, 0), M::Unquote("var_int".into(), MV::U(42), false), M::Int(43, 0)], None),
         M::List(vec![M::List(vec![id("answer")], Some(Box::new(M::Unquote("40 + 2".into(), MV::U(42), true))))], None),
         M::List(vec![id("a")], Some(Box::new(M::Unquote("var_val".into(), MV::list(vec![MV::sym("x"), MV::U(1)]), false)))),
-        M::List(vec![M::Int(-5, 0), M::Float((-1.5f64).to_bits())], None),
+        M::List(vec![M::Int(-5, 0), M::Float((-1.5f64).to_bits(), 0), M::Float((-2.5e-7f64).to_bits(), 0), M::Float((-2.5e-3f64).to_bits(), 1)], None),
         M::List(vec![id("a"), p(".."), id("b")], None),
         M::Vector(vec![id("a"), p("..."), id("b")]),
     ];
